@@ -4,7 +4,7 @@
    gen_table_ok in the generated file), so that they apply to every generated type. *)
 From DV Require Import Base.Prelude Model.NameM Model.SchemaM Proofs.SchemaCodec Proofs.SchemaThm Proofs.SchemaFix Proofs.SchemaTable Proofs.SchemaOrigin.
 From DV Require Proofs.NameValid Proofs.SchemaExamples.
-From DV Require Import Model.DispatchM Proofs.SchemaDispatch Model.SchemaHand Proofs.SchemaHandThm Proofs.SchemaTotal Proofs.SchemaReenc.
+From DV Require Import Model.DispatchM Proofs.SchemaDispatch Model.SchemaHand Proofs.SchemaHandThm Proofs.SchemaTotal Proofs.SchemaReenc Proofs.SchemaOptFix Proofs.SchemaAplFix Proofs.SchemaLocFix Proofs.SchemaSvcbFix Proofs.SchemaOriginFix.
 Open Scope Z_scope.
 
 (* from_wire(to_wire(x)) = x for every well-formed schema and every value the constructor
@@ -110,6 +110,16 @@ Theorem table_roundtrip_origin : forall tbl o e w r ck vs b A P,
   decode_rdata (Some o) (map fst r) ck (A ++ b ++ P) (length A) (length b) = Ok vs.
 Proof. exact table_roundtrip_origin_thm. Qed.
 Print Assumptions table_roundtrip_origin.
+
+(* the second half with an origin: what is accepted under origin o encodes under o and the
+   encoding decodes under o to the same record (relativized names fit again with the origin) *)
+Theorem schema_fixed_point_origin : forall o fs ck wire cur rdlen vs,
+  is_absolute o = true -> schema_wf fs = true ->
+  decode_rdata (Some o) fs ck wire cur rdlen = Ok vs ->
+  exists w', encode_rdata (Some o) fs ck vs = Ok w' /\
+             decode_rdata (Some o) fs ck w' 0 (length w') = Ok vs.
+Proof. intros o fs ck wire cur rdlen vs Ho. apply schema_fixed_point_origin_thm. exact Ho. Qed.
+Print Assumptions schema_fixed_point_origin.
 
 (* known finding C02-tsig-relative-algorithm-origin: TSIG's reader calls get_name() without the
    origin its writer appends, so the statement above is false for TSIG (entry_origin_ok fails) *)
@@ -219,6 +229,46 @@ Theorem amtrelay_fixed_point : forall wire cur rdlen vs,
              hand_decode_rdata HAmtrelay None w' 0 (length w') = Ok vs.
 Proof. exact amtrelay_fixed_point_thm. Qed.
 Print Assumptions amtrelay_fixed_point.
+
+(* ... and for the normalising hand codecs.  OPT: the option classes' normalisation is idempotent
+   (false before fix 2815f69, EDE text with several trailing NULs), so the reader's output is in
+   normal form, encodes, and decodes to itself *)
+Theorem opt_normalisation_idempotent : forall ot d p, opt_norm ot d = Some p -> opt_norm ot p = Some p.
+Proof. exact opt_norm_idem. Qed.
+Print Assumptions opt_normalisation_idempotent.
+
+Theorem opt_fixed_point : forall wire cur rdlen vs,
+  all_bytes wire = true ->
+  hand_decode_rdata HOpt None wire cur rdlen = Ok vs ->
+  exists w', hand_encode_rdata HOpt None vs = Ok w' /\
+             hand_decode_rdata HOpt None w' 0 (length w') = Ok vs.
+Proof. exact opt_fixed_point_thm. Qed.
+Print Assumptions opt_fixed_point.
+
+Theorem svcb_fixed_point : forall wire cur rdlen vs,
+  hand_decode_rdata HSvcb None wire cur rdlen = Ok vs ->
+  exists w', hand_encode_rdata HSvcb None vs = Ok w' /\
+             hand_decode_rdata HSvcb None w' 0 (length w') = Ok vs.
+Proof. exact svcb_fixed_point_thm. Qed.
+Print Assumptions svcb_fixed_point.
+
+Theorem loc_fixed_point : forall wire cur rdlen vs,
+  all_bytes wire = true ->
+  hand_decode_rdata HLoc None wire cur rdlen = Ok vs ->
+  exists w', hand_encode_rdata HLoc None vs = Ok w' /\
+             hand_decode_rdata HLoc None w' 0 (length w') = Ok vs.
+Proof. exact loc_fixed_point_thm. Qed.
+Print Assumptions loc_fixed_point.
+
+(* APL: every accepted record encodes; the encoding decodes to the record's canonical form
+   (trailing zero octets of unknown-family addresses trimmed), which re-encodes identically *)
+Theorem apl_fixed_point : forall wire cur rdlen vs,
+  hand_decode_rdata HApl None wire cur rdlen = Ok vs ->
+  exists items w, vs = [VL items] /\ hand_encode_rdata HApl None vs = Ok w /\
+            hand_decode_rdata HApl None w 0 (length w) = Ok [VL (map apl_canon_item items)] /\
+            hand_encode_rdata HApl None [VL (map apl_canon_item items)] = Ok w.
+Proof. exact apl_decoded_fixed_point. Qed.
+Print Assumptions apl_fixed_point.
 
 (* ---------- non-vacuity: the hypotheses are satisfiable on realistic records ---------- *)
 Notation mx_schema := SchemaExamples.mx_schema (only parsing).
